@@ -8,7 +8,7 @@
 (*   C09  static figures >= what the VM measures / the size model says     *)
 (* Bag shape: records are fanned out over TLC workers (two-level Next).    *)
 (***************************************************************************)
-EXTENDS Verify, Satisfier, Json, IOUtils, SequencesExt, FiniteSetsExt
+EXTENDS Verify, Satisfier, ExtData, Json, IOUtils, SequencesExt, FiniteSetsExt
 
 ASSUME TLCSet(1, ndJsonDeserialize(IOEnv.TRACE))
 Rec == TLCGet(1)
@@ -93,10 +93,20 @@ JudgeRes(ev, j) ==
     ELSE (~(sane /\ HashesIn(ev.ast) \subseteq w.pre /\ S # {})
           \/ Report("C02", "missed_nonmall", ev, j, r.route))
 
+\* L2 conformance: the static figures of ExtData.tla (checked against the satisfier model and
+\* Encode by MC_ExtData) are, field by field, the figures the library reports.  Drift, as above.
+SameData(d, lib) ==
+  d.some = lib.some /\ (~d.some \/ (d.c = lib.wit_count /\ d.w = lib.wit_size /\ d.s = lib.ssig_size
+                                   /\ d.x = lib.exec_stack /\ d.o = lib.exec_ops))
+L2Figures(ev) ==
+  \A e \in {Ext(ev.ast, ev.ctx)} :
+    (e.pk = ev.st.ms.pk_cost /\ e.ops = ev.st.ms.static_ops /\ SameData(e.sat, ev.st.ms.sat) /\ SameData(e.dis, ev.st.ms.dissat))
+    \/ Report("INFO", "drift_l2_extdata", ev, 0, <<e.pk, e.ops, e.sat, e.dis>>)
+
 JudgeEvent(ev) ==
   IF ev.parse # "ok"
   THEN Report("INFO", "parse_" \o ev.parse, ev, 0, ev.msg)
-  ELSE \A j \in 1..Len(ev.res) : JudgeRes(ev, j) /\ L2Agrees(ev, j)
+  ELSE L2Figures(ev) /\ \A j \in 1..Len(ev.res) : JudgeRes(ev, j) /\ L2Agrees(ev, j)
 
 Inv == i > 0 => JudgeEvent(Rec[i])
 
